@@ -1,7 +1,12 @@
 use crate::streaming::local_sizeable::LocalSizeable;
 use crate::streaming::local_sizeable::RealSize;
 use crate::streaming::models::COMPONENT;
+#[cfg(not(kani))]
 use bytes::{BufMut, Bytes, BytesMut};
+#[cfg(kani)]
+use bytes::Bytes;
+#[cfg(kani)]
+use iggy::verif_model::bytesmut::{BufMut, BytesMut};
 use error_set::ErrContext;
 use iggy::bytes_serializable::BytesSerializable;
 use iggy::error::IggyError;
